@@ -81,6 +81,44 @@ def sameSet (a b : List Nat) : Bool := a.all b.contains && b.all a.contains
 def hasExpr (segs : List OSeg) : Bool := segs.any (·.kind != .bypass)
 def hasOutputSeg (segs : List OSeg) : Bool := segs.any (·.kind == .output)
 
+/-- occurrences of `pre` in `b` -/
+def countOcc (pre : Bytes) (b : Bytes) : Nat :=
+  ((List.range b.size).filter fun i => b.hasPrefixAt i pre).length
+
+/-- offset after a placeholder `@sqlair_<digits>` at `off`, if there is one -/
+def placeholderAt (sql : Bytes) (off : Nat) : Option Nat :=
+  let pre := bs "@sqlair_"
+  if sql.hasPrefixAt off pre then
+    let ds := (sql.extract (off + pre.size) sql.size).toList.takeWhile isDigitB
+    if ds.isEmpty then none else some (off + pre.size + ds.length)
+  else none
+
+/-- the offsets at which a comma separated list of placeholders starting at `off` may end:
+    `off` itself (the empty list) and the end of every placeholder of the run -/
+def placeholderListEnds (sql : Bytes) : Nat → Nat → List Nat
+  | 0, off => [off]
+  | fuel+1, off =>
+    match placeholderAt sql off with
+    | none => [off]
+    | some e => off :: (if sql.hasPrefixAt e (bs ", @sqlair_") then (placeholderListEnds sql fuel (e + 2)).tail else []) ++ [e]
+
+/-- for statements whose only expressions are member and slice inputs the SQL is determined
+    up to the lengths of the slices: the bypass chunks verbatim, one placeholder per member,
+    a comma separated list of placeholders (possibly empty) per slice, nothing else -/
+def matchInputsOnly : List OSeg → Bytes → Nat → Bool
+  | [], sql, off => off == sql.size
+  | s :: rest, sql, off =>
+    match s.kind with
+    | .bypass => sql.hasPrefixAt off s.raw && matchInputsOnly rest sql (off + s.raw.size)
+    | .member => match placeholderAt sql off with
+      | some e => matchInputsOnly rest sql e
+      | none => false
+    | .slice => (placeholderListEnds sql sql.size off).any fun e => matchInputsOnly rest sql e
+    | _ => true
+
+def inputsOnly (segs : List OSeg) : Bool :=
+  segs.all fun s => s.kind == .bypass || s.kind == .member || s.kind == .slice
+
 /-- C01 end to end: every bypass chunk is in the SQL, in order, and a query without
     expressions is sent unchanged -/
 def holdsC01e2e (q : Bytes) (segs : List OSeg) (o : BindObs) : Bool :=
@@ -101,6 +139,11 @@ def cleanForTokens (segs : List OSeg) : Bool :=
     s.cols.all (fun c => !isDigitB (c.column.getD 0 0) && !isDigitB (c.table.getD 0 0)) &&
     s.types.all (fun t => !isDigitB (t.member.getD 0 0))
 
+/-- C01, exact form for statements whose only expressions are inputs -/
+def holdsC01exact (segs : List OSeg) (o : BindObs) : Bool :=
+  if !(o.prepOk && o.bindOk) || o.events == 0 || !inputsOnly segs || !cleanForTokens segs then true
+  else matchInputsOnly segs o.sql 0
+
 /-- C03: placeholders and named arguments correspond one to one -/
 def holdsC03 (segs : List OSeg) (o : BindObs) : Bool :=
   if !(o.prepOk && o.bindOk) || o.mode == "none" || !cleanForTokens segs then true else
@@ -116,6 +159,8 @@ def holdsC05 (segs : List OSeg) (o : BindObs) : Bool :=
   (!cleanForTokens segs ||
     (let als := numbersAfter (bs " AS _sqlair_") o.sql
      als == List.range als.length && (hasOutputSeg segs == !als.isEmpty) &&
+     -- every alias is the prefix followed by a number
+     countOcc (bs " AS _sqlair_") o.sql == als.length &&
      -- a SQL wildcard is never generated as an output column
      !(containsSub o.sql "* AS _sqlair_") &&
      -- explicitly written columns and function calls are kept verbatim, each with an alias
